@@ -24,10 +24,8 @@ META = {
     'decides': 'every double written as a binary NL constant is read back as the same value (bit-identical apart from the sign '
                'of zero, NaN stays NaN); the opcode table of the writer and the tables of the reader agree on every opcode '
                '(code in range, same kind/opcode, same name)',
-    'not_decided': 'shortest-round-trip decimal output of the text format (dtoa.cc / g_fmt: bignum loops, out of reach), header '
-                   'layout (fprintf vs text parsing), segment order, suffixes, names, text = binary equivalence for whole models',
-    'not_under_contract': ['DAVID_GAY_GFMT::g_fmt / dtoa_r_dmgay', 'NLWriter2::WriteNLHeader and all segment writers',
-                           'TextFormatter::apr (%g path)'],
+    'not_decided': 'what dtoa_r_dmgay returns (arbitrary-precision digit generation: an arbitrary function here; a native sweep shows it is not round-trip exact for some doubles), suffix value lines, initial guesses (x / d), function definitions (F), string arguments, names, the dispatch of MakeVectorWriter to its header printer, text = binary equivalence for whole models; TextFormatter::apr integers beyond the bounded stand-in',
+    'not_under_contract': ['dtoa_r_dmgay', 'SingleSparseVecWrtFactory::MakeVectorWriter', 'WriteFunctions / WriteSuffixes value lines / WriteInitialGuesses', 'TextFormatter::apr (%d / %z only as a bounded stand-in)'],
     'assumptions': ['little-endian host (IdentityConverter); the byte-swapped path is EndiannessConverter, see C02.binary.Convert',
                     'fwrite succeeds and writes exactly the bytes passed (ghost byte buffer)',
                     'default argument promotions of the variadic call are applied by hand in the harness (short -> int)'],
@@ -96,6 +94,55 @@ void harness(void) {
     return Harness('C03.apr.%s' % tag, 'C03', [APR_PRE, apr_fn(), body], plain=True, inputs=['vp_in_v'],
                    note='real variadic body, constant format string: loops fully unwound', stubs=['fwrite (ghost byte buffer)'],
                    replay=lambda lead, inputs, obs: replay_apr(tag, inputs))
+
+
+TEXT_APR_PRE = '''
+#include "mp_shim.h"
+#include <stdarg.h>
+int vp_one;
+typedef long ssize_t;
+unsigned char g_out[48]; size_t g_len; _Bool nl_comments; int output_prec;
+static void vp_putc(int c) { __CPROVER_assert(g_len < sizeof g_out, "ghost output large enough"); g_out[g_len++] = (unsigned char)c; }
+#define putc(c, fd) vp_putc(c)
+static char *vp_gfmt(double x, int prec) { static char z[2] = "0"; return z; }       /* numbers: C03.g_fmt.* */
+#define VP_MAY_THROW_myexit 0
+#define VP_MYEXIT() VP_THROW(myexit)
+'''
+
+
+def text_apr_fn():
+    return Fn(W2, r'int TextFormatter::apr\(File& f, const char \*fmt, \.\.\.\)', 'int text_apr(int fd_, const char *fmt, ...)',
+              subst=[(r'auto fd = f\.GetHandle\(\);', '', 1),
+                     (r'#ifdef NL_LIB_USE_SPRINTF[\s\S]*?#else\s*\n([\s\S]*?)#endif[^\n]*\n', r'\1', 1),        # the branch compiled by default
+                     (r'DAVID_GAY_GFMT::gfmt\(', 'vp_gfmt(', 1),
+                     (r'Utils\(\)\.myexit\("aprintf bug: unexpected fmt: " \+\s*std::string\(fmt-1\)\);', 'VP_MYEXIT();', 1)],
+              label='mp::TextFormatter::apr', nmatches=1)
+
+
+def h_text_apr_int(tag, fmt, ctype, nondet):
+    """TextFormatter::apr, integer conversions (%d of an int, %z of a size_t): the characters written are what the NL text reader parses back
+    to the same number: an optional '-' FIRST, then the decimal digits, most significant first, then the line end."""
+    body = '''
+%s vp_in_v;
+void harness(void) {
+  vp_one = 1; g_len = 0; nl_comments = nondet_bool(); output_prec = 0;
+  %s v = %s(); __CPROVER_assume(v < 1000 && (v >= 0 || v > -1000)); vp_in_v = v;      /* BOUNDED: numbers of at most 3 digits (the digit loop divides by 10: beyond SAT for the full width) */
+  text_apr(0, "%s\\n", v);
+  __CPROVER_assert(g_len >= 2 && g_out[g_len - 1] == '\\n', "the line ends after the number");
+  size_t k = 0; _Bool neg = 0;
+  if (g_out[0] == '-') { neg = 1; k = 1; }
+  __CPROVER_assert(k < g_len - 1, "at least one digit");
+  __CPROVER_assert(neg == (v < 0), "a minus sign is written exactly for a negative number, before the digits");
+  unsigned long mag = 0;
+  for (; k < g_len - 1; ++k) { __CPROVER_assert(g_out[k] >= '0' && g_out[k] <= '9', "only decimal digits follow"); mag = mag * 10 + (unsigned long)(g_out[k] - '0'); }
+  unsigned long want = v < 0 ? 0UL - (unsigned long)v : (unsigned long)v;
+  __CPROVER_assert(mag == want, "the digits denote the magnitude of the number");
+  VP_REACH("end");
+}
+''' % (ctype, ctype, nondet, fmt)
+    return Harness('C03.text_apr.%s' % tag, 'C03', [TEXT_APR_PRE, text_apr_fn(), body], plain=True, inputs=['vp_in_v'], timeout=300,
+                   bounded={'unwind': 8, 'reason': 'numbers of at most 3 decimal digits (division by 10 over the full width is beyond the SAT back ends)'},
+                   note='BOUNDED stand-in: real variadic body, integers in (-1000, 1000)', replay=lambda lead, inputs, obs: __import__('specs.C03_writer', fromlist=['x']).replay_mode('linear')(lead, inputs, obs), stubs=['putc (ghost byte buffer)', 'gfmt (not used by these formats)'])
 
 
 NPUT_PRE = '''
@@ -371,4 +418,4 @@ def harnesses(tier, seed):
     return gf + [h_apr('s', 's%h', 'short', 'int', 'nondet_short', 2),
             h_apr('l', 'l%l', 'int', 'long', 'nondet_int', 4),
             h_apr('n', 'n%g', 'double', 'double', 'nondet_double', 8),
-            h_nput(), h_opcodes()] + C03_header.harnesses() + C03_writer.harnesses()
+            h_nput(), h_opcodes(), h_text_apr_int('d', '%d', 'int', 'nondet_int'), h_text_apr_int('z', '%z', 'size_t', 'nondet_size_t')] + C03_header.harnesses() + C03_writer.harnesses()
